@@ -42,7 +42,7 @@ META = dict(
               'closure lint; CFG raising paths of the constructors'
               '; root analysis of the six probe points of find_bounds through the sea'
               'rch recurrences'
-              '; pair members of the overlap loops; fresh member list of the collection constructors; union of the per-function bounding boxes; voxel grid spanning the bounding box at the requested pitch',
+              '; pair members of the overlap loops; fresh member list of the collection constructors; union of the per-function bounding boxes; voxel grid spanning the bounding box at the requested pitch; sibling cross-check of the sign and centre-shape refusals over the primitive shapes',
     level_text='Static: K1-K5 are decided exhaustively over every Scatterer subclass '
                'and every pair enumeration in the source.  They are the analytic '
                'inequalities themselves (K2-K4) and necessary conditions of the '
